@@ -14,7 +14,7 @@ def concretise(ob, model):
 
 
 def more(rep, tu):
-    return cinc.kind_obligations(tu), []
+    return cinc.kind_obligations(tu) + cinc.delegation_reached_obligation(tu), []
 
 
 def main(tier, seed):
